@@ -908,7 +908,7 @@ func (d *Data) DoRPC(req datastore.Request, reply *datastore.Response) error {
 		}
 
 		// Get offset
-		offset, err := dvid.StringToPoint(offsetStr, ",")
+		offset, err := dvid.StringToPoint3d(offsetStr, ",")
 		if err != nil {
 			return fmt.Errorf("Illegal offset specification: %s: %v", offsetStr, err)
 		}
